@@ -69,6 +69,7 @@ impl SegmentLogReader {
     // requires and the clauses [C02.range.run], [C02.range.reach], [C02.range.min] of units/read_log/contracts.vspec —
     // every stored batch from the one starting at index_range.start.position through the first one starting at or after
     // index_range.end.position (or the end of the file), none skipped, none invented.
+    // LINKED: units/read_log/lemmas.rs, harness [C02.link.read_disk.load_batches_by_range_impl], proves this contract from the real function (mirror edits there)
     #[verifier::external_body]
     pub fn load_batches_by_range_impl(&self, index_range: &IndexRange) -> (r: Result<Vec<RetainedMessageBatch>, IggyError>)
         requires
@@ -129,6 +130,7 @@ impl SegmentIndexReader {
 impl Segment {
     // Segment::load_highest_lower_bound_index (indexes/index.rs). ASSUMED here, PROVED in unit read_segment: exactly the
     // requires and the clauses [C02.idx.start], [C02.idx.end], [C02.idx.err] of units/read_segment/contracts.vspec.
+    // LINKED: units/read_segment/lemmas.rs, harness [C02.link.read_disk.load_highest_lower_bound_index], proves this contract from the real function (mirror edits there)
     #[verifier::external_body]
     pub fn load_highest_lower_bound_index(&self, indices: &[Index], start_offset: u32, end_offset: u32) -> (r: Result<IndexRange, IggyError>)
         requires
